@@ -413,7 +413,7 @@ fn documents(tier: Tier) -> Vec<DocFaults> {
                     }
                 }
             }
-            let text_consts: [&[u8]; 19] = [b"-1", b"x", b"18446744073709551616", b"4294967296", b"1 2", b"&#0;", b"&bogus;", "\u{FF11}".as_bytes(), "2\u{B3}".as_bytes(), "\u{663}".as_bytes(), "\u{2167}".as_bytes(), "\u{BD}".as_bytes(), b" 1", b"1 ", b"+1", b"0x10", b"1e3", "\u{FF11}\u{FF12}".as_bytes(), "1\u{200B}".as_bytes()];
+            let text_consts: [&[u8]; 22] = [b"18446744073709551615", b"9223372036854775808", b"18446744073709551614", b"-1", b"x", b"18446744073709551616", b"4294967296", b"1 2", b"&#0;", b"&bogus;", "\u{FF11}".as_bytes(), "2\u{B3}".as_bytes(), "\u{663}".as_bytes(), "\u{2167}".as_bytes(), "\u{BD}".as_bytes(), b" 1", b"1 ", b"+1", b"0x10", b"1e3", "\u{FF11}\u{FF12}".as_bytes(), "1\u{200B}".as_bytes()];
             let mut dtexts: Vec<Vec<u8>> = vec![];
             for (a, b) in &s.texts {
                 let v = doc[*a..*b].to_vec();
